@@ -226,25 +226,41 @@ where
 
     async fn dump_in_memory(&mut self, blob_size: u64) -> Result<usize> {
         if let State::InMemory(headers) = &self.inner {
-            let headers = {
-                let mut headers = headers.write().expect("rwlock");
-                std::mem::take(&mut *headers).headers
+            // The headers are moved out of the lock while the file is written. They go back when the dump does not
+            // complete (an error, or this future is dropped): the records of the blob must stay reachable
+            struct PutBack<'a, K> {
+                lock: &'a SRwLock<InMemoryData<K>>,
+                data: Option<InMemoryData<K>>,
+            }
+            impl<'a, K> Drop for PutBack<'a, K> {
+                fn drop(&mut self) {
+                    if let Some(data) = self.data.take() {
+                        *self.lock.write().expect("rwlock") = data;
+                    }
+                }
+            }
+            let mut taken = PutBack {
+                lock: headers,
+                data: Some(std::mem::take(&mut *headers.write().expect("rwlock"))),
             };
+            let headers = &taken.data.as_ref().expect("just set").headers;
             if headers.len() == 0 {
                 return Ok(0);
             }
             debug!("blob index simple in memory headers {}", headers.len());
             let (meta_buf, bloom_offset) = self.serialize_filters()?;
-            self.bloom_offset = Some(bloom_offset as u64);
             let findex = FileIndex::from_records(
                 self.name.as_path(),
                 self.iodriver.clone(),
-                &headers,
+                headers,
                 meta_buf,
                 self.params.recreate_file,
                 blob_size,
             )
             .await?;
+            taken.data = None;
+            drop(taken);
+            self.bloom_offset = Some(bloom_offset as u64);
             let size = findex.file_size() as usize;
             self.inner = State::OnDisk(findex);
             return Ok(size);
